@@ -339,6 +339,12 @@ C       IF (DABS(RAT-1D0).GT.1D-6) PRINT 8004, AXI
  8004 FORMAT('EQUAL-SURFACE-AREA-SPHERE RADIUS=',F8.4)
       A=RAT*AXI
       XEV=2D0*P*A/LAM
+      IF (.NOT.(XEV.LT.1D6)) THEN
+C        far beyond any order the arrays hold, and beyond what the
+C        integer below can count (the conversion overflows): failure
+         MAXITER=-1
+         RETURN
+      ENDIF
       IXXX=XEV+4.05D0*XEV**0.333333D0
       INM1=MAX0(4,IXXX)
 C       IF (INM1.GE.NPN1) PRINT 7333, NPN1
